@@ -154,6 +154,13 @@ def dataOKm (before : T) (names : List String) (rev : Bool) (after : T) : Bool :
     where the current code keeps the root of a rooted input; see class RootedRootSuppressed) -/
 def rootedBin (t : T) : Bool := t.kids.length == 2 && binaryL t.kids
 
+/-- What a tip file asks for: its lines ("\n" or "\r\n" ended, a last line without line end counts)
+    cut at every ','; a tip is requested iff its name is one of these tokens (nothing is trimmed). -/
+def fileTokens (content : String) : List String :=
+  let lines := (content.replace "\r\n" "\n").splitOn "\n"
+  let lines := if lines.getLast? == some "" then lines.dropLast else lines
+  lines.flatMap fun l => l.splitOn ","
+
 /- ## the whole command (`pruneAll`) -/
 
 /-- every input tree satisfies the hypotheses of the theorems for the names the flags select -/
